@@ -444,7 +444,7 @@ async fn db_folder_sql(acc: &mut Acc) {
             // every case gets its own folder identifier (the table has a
             // unique index on it)
             let mut v = case.value.clone();
-            let fid = vals::uid((i as u8) * 2 + if path == "insert" { 1 } else { 2 });
+            let fid = sos_core::VaultId::from_u128(0x5eed_0000_0000_0000_0000_0000_0000_0000 + (i as u128) * 2 + if path == "insert" { 1 } else { 2 });
             *v.header_mut().id_mut() = fid;
             let want = vals::header_proj(v.header(), v.shared_access());
             let wit = |extra: Value| json!({"engine": "codecx", "format": "database_sql", "type": "FolderRow(sql)", "case": label, "value": clip(&want), "detail": extra});
